@@ -14,6 +14,7 @@ import contextlib
 import io
 import random
 import re
+import warnings
 from typing import Any, Dict, List, Optional, Tuple
 
 from . import codecrun, common
@@ -75,7 +76,9 @@ def drive(col: common.Collector, layer: Any, stream: List[Tuple[int, bytes]], la
             snoop.last_request = None
             continue
         try:
-            kind, names = expected_lines(layer, state, can_id, payload)
+            with warnings.catch_warnings():
+                warnings.simplefilter("ignore")
+                kind, names = expected_lines(layer, state, can_id, payload)
         except Exception as e:  # the API itself misbehaves: C05's other legs report that
             col.count("snoop-api-raised-foreign")
             state["last"] = None
